@@ -49,6 +49,7 @@ Definition ucheck_corr (c : ucase) : bool :=
         | Err _ => true
         end
       else true
+  | CChain e ss c => agree (c_tol c) (evaluate (env_of c) (subst_chain ss e)) (c_obs c)
   | CCrash => false
   end.
 
